@@ -235,7 +235,7 @@ def zygote_request(req):
 # ---------------------------------------------------------------------------------------------
 # building the schemas of a case
 
-ROUTES = ("sdl", "code", "code+")
+ROUTES = ("sdl", "code", "code+")  # + "code-rev" / "code-rot": plain code route, default dicts keyed in reversed / rotated order
 _LIB_ERRORS = None
 
 
@@ -273,7 +273,7 @@ def make_schema(features, route, applied_first=False):
             return None, sm, "sdl-unbuildable:%s" % type(e).__name__
     smc = G.with_internals(sm) if route == "code+" else sm
     # applied directives need AST nodes: the code routes cannot carry them
-    s = M.sm_to_code(smc)
+    s = M.sm_to_code(smc, key_order={"code-rev": "reversed", "code-rot": "rotated"}.get(route))
     s.validate()
     return s, sm, None
 
@@ -331,7 +331,7 @@ def rt_eval(features, route, o, st=None):
         return out
     if st is not None:
         st.n("evaluations")
-    rsfx = "/route=code+" if route == "code+" else ""
+    rsfx = ("/route=" + route) if route in ("code+", "code-rev", "code-rot") else ""
     r1 = _print(s, o)
     if r1[0] != "ok":
         return [("print-raises:%s%s" % (r1[1], rsfx), "to_string(%s) raised %s: %s" % (o, r1[1], r1[2]))]
@@ -833,6 +833,22 @@ def rt_cases(tier):
             grid, routes = "menu3", ("sdl-or-code+",)
         for route in routes:
             yield {"kind": "rt", "features": fs, "route": route, "grid": grid}
+        if grid != "menu3" and _has_object_default(fs):
+            # programmatically built schemas whose default dicts are not in field declaration order
+            for route in ("code-rev", "code-rot"):
+                yield {"kind": "rt", "features": fs, "route": route, "grid": "menu3" if grid == "menu6" else "menu6"}
+
+
+def _has_object_default(fs):
+    def has(lit):
+        return lit is not None and (lit[0] == "obj" or (lit[0] == "list" and any(has(x) for x in lit[1])))
+
+    sm = G.build_sm(fs)
+    for t in sm["types"]:
+        for f in t.get("fields", []):
+            if has(f.get("default")) or any(has(a.get("default")) for a in f.get("args", [])):
+                return True
+    return any(has(a.get("default")) for d in sm["directives"] for a in d["args"])
 
 
 def cases(tier):
